@@ -4,7 +4,7 @@ from ..vlib import cN, clist, copt
 from ..harness import dumps as D
 
 TRANSLATORS = []
-MODEL_TARGETS = ['theories/FiltersCases.vo']
+MODEL_TARGETS = ['theories/FiltersCases.vo', 'theories/CliCases.vo']
 PROOF_TARGETS = ['props/C12.vo']
 PROP_FILE = 'props/C12.v'
 ASSUMPTIONS = [
@@ -144,9 +144,12 @@ def run(ctx, model_ok):
     from . import cli_common
     cli_common.run(ctx, ['kevents', 'logs'], 100 if ctx.quick() else 800)
     ctx.samples = [{'cfg': gens[i][0]['cfg'], 'events(tid,eventid,uid)': gens[i][1][:6], 'impl': res[i]} for i in (0, 1)]
+    # the option type of the class / subclass filters: int(text, 0)
+    from . import cli_int
+    cli_int.run(ctx, model_ok)
     if model_ok:
         bad, errors = vlib.run_model_cases('C12', HEADER, 'fcase', 'fcheck', cases, per_file=100)
-        ctx.traces_validated = len(cases) - len(bad)
+        ctx.traces_validated += len(cases) - len(bad)
         if errors:
             ctx.broken.append(('correspondence', f'case files failed to evaluate: {errors[0]}'))
         for b in bad[:10]:
